@@ -124,4 +124,29 @@ def exec (ppOf : Int → Nat → Nat) : W → List Step → W
     before it reads the node's request log -/
 def settle (ppOf : Int → Nat → Nat) (w : W) : W := arrive ppOf w
 
+/-- what the application gets per stride: the rows handed over by the stride and the result of its last call -/
+def strideLog (ppOf : Int → Nat → Nat) : W → List Step → List (List Int × Bool)
+  | _, [] => []
+  | w, .scan api k :: rest =>
+    let r := scanK ppOf api k w
+    (r.1.it.out.drop w.it.out.length, r.2) :: strideLog ppOf r.1 rest
+  | w, s :: rest => strideLog ppOf (step ppOf w s) rest
+
+/-- the lengths of the strides of a walk -/
+def strideKs : List Step → List Nat
+  | [] => []
+  | .scan _ k :: rest => k :: strideKs rest
+  | _ :: rest => strideKs rest
+
+/-! ## Specification of a walk (independent of Iter / Qry / the prefetch): `R` is the result (`Paging.Spec.rows`
+    of the script); an application that has `c` rows in hand and makes `k` more single calls gets the next
+    `k` rows of `R` (fewer if `R` ends), and its last call says true iff `R` had that many -/
+namespace Spec
+
+def strides (R : List Int) : Nat → List Nat → List (List Int × Bool)
+  | _, [] => []
+  | c, k :: ks => ((R.drop c).take k, decide (c + k ≤ R.length)) :: strides R (min (c + k) R.length) ks
+
+end Spec
+
 end Paging.Walk
